@@ -181,7 +181,7 @@ Powers ==
           ToInt(D3("BIntPowerMod", A, E, Bz)) = NRem(a ^ e, b))
 
 Typing ==
-  /\ \A o \in {"SIntPlus", "SIntMinus", "SIntTimes", "SIntAnd", "SIntOr", "SIntXOr", "SIntGcd", "SIntHashCombine",
+  /\ \A o \in {"SIntPlus", "SIntMinus", "SIntTimes", "SIntAnd", "SIntOr", "SIntXOr", "SIntGcd",
                "SIntEQ", "SIntLT", "BIntPlus", "BIntTimes", "BIntGcd"} : ResultTyped(o, <<A, Bz>>)
   /\ \A o \in {"SIntNegate", "SIntNot", "SIntPrev", "SIntNext", "SIntLength", "SIntIsOdd", "SIntToBInt"} :
         ResultTyped(o, <<A>>)
